@@ -257,7 +257,8 @@ def _check_flip_estimator(ck, inst, asite, p, cls, ocls, absolute):
     want = T.idx0(q.term, 0) * T.inv(T.sym("nv"))
     if absolute:
         want = T.absval(want)
-    got = r.term
+    got = unregularised(ck, "C08.R3", inst, asite, "per-sample estimate", r.term)
+    want = strip_regularisers(want) if regularisers(want) else want
     if got == want:
         ck.ok("C08.R3", inst + ":sum/denominator/nsites", asite)
     elif got == T.idx0(q.term, 0) or (absolute and got == T.absval(T.idx0(q.term, 0))):
